@@ -828,6 +828,27 @@ func ruleAgree(c *Ctx) {
 			}
 		}
 		c.Check("AGREE", short(f)+":randomness-from-crypto/rand", p.Pos(f.Pos()), okR, "GetSalt does not fill the salt from crypto/rand.Read")
+		// a failing random source must surface as an error: otherwise the (zeroed) buffer goes out as the salt, the same one
+		// on every connection while the source is failing
+		for _, cl := range c.NewRegion(f, 3, inSvc).Calls() {
+			call, ok := cl.(*ssa.Call)
+			if !ok || eng.CalleeName(&call.Call) != "crypto/rand.Read" {
+				continue
+			}
+			g := call.Parent()
+			ei := errorResultIndex(g.Signature)
+			var errVal ssa.Value
+			for _, r := range *call.Referrers() {
+				if ex, ok := r.(*ssa.Extract); ok && ex.Index == 1 {
+					errVal = ex
+				}
+			}
+			okH, whyH := false, "the error of crypto/rand.Read is discarded"
+			if errVal != nil && ei >= 0 {
+				okH, whyH = errorHandled(c, g, errVal, ei)
+			}
+			c.CheckAt("AGREE", short(g)+":random-source-failure-is-reported", call, okH, "a failure of the random source is not reported by GetSalt ("+whyH+"): the response goes out with a predictable, repeated salt")
+		}
 	}
 	c.Floor("AGREE", "GetSalt implementations", n, 2)
 }
